@@ -50,19 +50,19 @@ type Config struct {
 	MaxSteps     int
 	MaxSimTime   time.Duration
 	// fault knobs (probabilities are x/1000 per opportunity; 0 disables)
-	Reorder     int // chance to pick a non-oldest ready entry
-	DropFrame   int
-	DupFrame    int
-	MaxDelayMs  int
-	Partition   int // chance per step (while no partition is active) to start one
-	Crash       int // chance per step to crash a running node at a quiescent point
+	Reorder          int // chance to pick a non-oldest ready entry
+	DropFrame        int
+	DupFrame         int
+	MaxDelayMs       int
+	Partition        int // chance per step (while no partition is active) to start one
+	Crash            int // chance per step to crash a running node at a quiescent point
 	CrashAtVoteWrite int // chance (per mille) per stimulus to arm a crash at that stimulus's first vote-record write
-	CrashAtK    int // chance per stimulus to arm a crash at the k-th disk write of that stimulus
-	MaxCrashes  int
-	TimerLate   int           // chance to hold back a node's due timers for a while
-	FaultUntil  time.Duration // faults stop after this simulated time (quiet phase follows)
-	WithStaking bool          // register the staking module on every chain (needed by C05)
-	Corrupt     int           // chance per sent frame to ALSO send a corrupted copy (the original still travels)
+	CrashAtK         int // chance per stimulus to arm a crash at the k-th disk write of that stimulus
+	MaxCrashes       int
+	TimerLate        int           // chance to hold back a node's due timers for a while
+	FaultUntil       time.Duration // faults stop after this simulated time (quiet phase follows)
+	WithStaking      bool          // register the staking module on every chain (needed by C05)
+	Corrupt          int           // chance per sent frame to ALSO send a corrupted copy (the original still travels)
 }
 
 type nodeState struct {
@@ -76,7 +76,7 @@ type nodeState struct {
 	outbox []interface{}
 	// escaping: see Sim.escape
 	escaping bool
-	seen   map[common.Hash]bool // consensus frames already handled (what ProtocolManager keeps)
+	seen     map[common.Hash]bool // consensus frames already handled (what ProtocolManager keeps)
 	// timersHeldUntil: the node's due timers are not looked at before this time (stalled node)
 	timersHeldUntil time.Time
 	downUntil       time.Time
